@@ -293,7 +293,8 @@ class AudioIO(object):
     only by the internal closing mechanism of children RecStream instances.
     """
     # Streams overload "==", so list.remove can't be used to find one
-    self._recordings = [rec for rec in self._recordings if rec is not recst]
+    with self.lock: # A "record" call might be adding another one right now
+      self._recordings = [rec for rec in self._recordings if rec is not recst]
 
   def record(self, chunk_size = None,
                    dfmt = "f",
@@ -337,7 +338,8 @@ class AudioIO(object):
                              chunk_size,
                              dfmt
                             )
-    self._recordings.append(input_stream)
+    with self.lock: # See "recording_finished"
+      self._recordings.append(input_stream)
     return input_stream
 
 
